@@ -933,3 +933,60 @@ func Induction(v ssa.Value) (int64, int64, bool) {
 	}
 	return 0, 0, false
 }
+
+// SpilledParam: v is a load from the cell a parameter was spilled into because a closure captures it, and neither
+// the function nor any closure ever assigns the cell again — so v is the parameter. Returns the parameter or nil.
+func SpilledParam(v ssa.Value) *ssa.Parameter {
+	u, ok := v.(*ssa.UnOp)
+	if !ok || u.Op != token.MUL {
+		return nil
+	}
+	a, ok := u.X.(*ssa.Alloc)
+	if !ok {
+		return nil
+	}
+	var par *ssa.Parameter
+	var readOnly func(cell ssa.Value, depth int) bool
+	readOnly = func(cell ssa.Value, depth int) bool {
+		if depth > 4 || cell.Referrers() == nil {
+			return false
+		}
+		for _, ref := range *cell.Referrers() {
+			switch x := ref.(type) {
+			case *ssa.UnOp:
+				if x.Op != token.MUL {
+					return false
+				}
+			case *ssa.DebugRef:
+			case *ssa.Store:
+				if x.Addr != cell {
+					return false // the cell's address escapes into memory
+				}
+				p, isParam := x.Val.(*ssa.Parameter)
+				if !isParam || depth != 0 || par != nil || x.Block().Index != 0 {
+					return false
+				}
+				par = p
+			case *ssa.MakeClosure:
+				fn, _ := x.Fn.(*ssa.Function)
+				if fn == nil {
+					return false
+				}
+				for i, b := range x.Bindings {
+					if b == cell {
+						if i >= len(fn.FreeVars) || !readOnly(fn.FreeVars[i], depth+1) {
+							return false
+						}
+					}
+				}
+			default:
+				return false
+			}
+		}
+		return true
+	}
+	if !readOnly(a, 0) || par == nil {
+		return nil
+	}
+	return par
+}
